@@ -35,15 +35,43 @@ type c01Endpoint struct {
 }
 
 type c01Env struct {
-	mu  sync.Mutex
-	eps map[string]*c01Endpoint // by formatter name
+	mu     sync.Mutex
+	eps    map[string]*c01Endpoint // by formatter name
+	decoys []func()
 }
 
 var c01Formatters = []string{"default", "ns+lower", "nons", "nons+lower", "custom_sep"}
 var c01Transports = []string{"ws", "http", "custom"}
 
+// c01Decoy: an unrelated client/server pair in the same process whose options transform common types; options given
+// to one client must not leak into any other client (created before or after it).
+func c01Decoy() (func(), error) {
+	rpc := jsonrpc.NewServer()
+	rpc.Register("D", NewBasicAPI())
+	var cl struct {
+		Echo func(s string) (string, error)
+	}
+	return jsonrpc.NewCustomClient("D", []interface{}{&cl}, func(ctx context.Context, body []byte) (io.ReadCloser, error) {
+		var buf bytes.Buffer
+		rpc.HandleRequest(ctx, bytes.NewReader(body), &buf)
+		return io.NopCloser(&buf), nil
+	},
+		jsonrpc.WithParamEncoder(new(string), func(v reflect.Value) (reflect.Value, error) { return reflect.ValueOf(v.String() + "!decoy"), nil }),
+		jsonrpc.WithParamEncoder(new(int64), func(v reflect.Value) (reflect.Value, error) { return reflect.ValueOf(v.Int() * 100), nil }),
+		jsonrpc.WithParamEncoder(new(bool), func(v reflect.Value) (reflect.Value, error) { return reflect.ValueOf(!v.Bool()), nil }),
+		jsonrpc.WithClientHandlerAlias("Sig.M001", "Sig.M002"))
+}
+
 func newC01Env() (*c01Env, error) {
 	env := &c01Env{eps: map[string]*c01Endpoint{}}
+	if closer, err := c01Decoy(); err == nil {
+		env.decoys = append(env.decoys, closer)
+	}
+	defer func() {
+		if closer, err := c01Decoy(); err == nil {
+			env.decoys = append(env.decoys, closer)
+		}
+	}()
 	for _, fn := range c01Formatters {
 		f := c12Formatter(fn)
 		ep := &c01Endpoint{api: &SigAPI{}, clients: map[string]*SigClient{}}
